@@ -212,7 +212,7 @@ def run_shard(ctx):
 
     run_hypothesis(ctx, st.fixed_dictionaries(dict(
         base, kind=st.just("lengths"), desc=const_shape(8 if quick else 64),
-        ratio=log_ratio(500))), body_len, 45 if quick else 600, sub="lengths")
+        ratio=log_ratio(500))), body_len, 45 if quick else 1500, sub="lengths")
 
     def body_half(case):
         cl = set()
@@ -221,7 +221,7 @@ def run_shard(ctx):
 
     run_hypothesis(ctx, st.fixed_dictionaries(dict(
         base, kind=st.just("halving"), desc=hist.shape_strategy(3),
-        ratio=log_ratio(200))), body_half, 30 if quick else 400, sub="halving")
+        ratio=log_ratio(200))), body_half, 30 if quick else 1000, sub="halving")
 
     def body_units(case):
         cl = set()
@@ -233,7 +233,7 @@ def run_shard(ctx):
                    min_size=1, max_size=6)
     run_hypothesis(ctx, st.fixed_dictionaries({
         "kind": st.just("units"), "res": st.floats(min_value=0.001, max_value=25.0),
-        "seq": seq}), body_units, 150 if quick else 2000, sub="units")
+        "seq": seq}), body_units, 150 if quick else 5000, sub="units")
 
     if quick and ctx.shard == 0:
         # one fixed many-turn helix (the 500-sample length estimate of the
